@@ -183,7 +183,8 @@ class MediaQuery(cssutils.util._NewBase):  # cssutils.util.Base):
                 pass
             else:
                 if 'not simple' not in store:
-                    self.mediaType = media_type.value
+                    # (not through the setter, which edits the old sequence)
+                    self._mediaType = media_type.value
 
             # TODO: filter doubles!
             self._setSeq(seq)
